@@ -5,7 +5,7 @@ from props.api_common import StreamProperty, kv, parse_sources, case_codeword
 class P(StreamProperty):
     pid = 'C01'
     module = 'OpenFecVerif.Props.C01'
-    theorems = ['C01_rs_sound', 'C01_it_step_sound', 'C01_gauss_sound']
+    theorems = ['C01_rs_sound_gf8', 'C01_rs_sound_gf4']
     rule = ('decoder sessions over RS-2^8, RS-2^m (m=4,8), LDPC-Staircase: all 2^n receive sets for every (k,r) with n<=nmax '
             '(orders: increasing / shuffled with duplicates; stream and table API; with and without finish; callbacks none/buf/null/mix; '
             'identity and random payloads) plus sampled larger blocks with losses near the LDPC threshold; '
